@@ -1,4 +1,5 @@
 import MdsVerif.Proofs.Lcs
+import MdsVerif.Proofs.LcsKeyed
 import MdsVerif.Proofs.Lis
 /-!
 # C12 — LCS, LIS and LNDS return optimal subsequences
@@ -8,7 +9,10 @@ Statements about `Model.Edit.lcsFunc?` (driver stream `C12.lcs`) and `Model.Lis.
 element type, no bound on lengths; `none` is Go's index-out-of-range panic.
 
 * LCS: for every `eq` deciding equality the result is a common subsequence of both arguments of
-  the reference optimal length `lcsLen` (textbook recursion, `Spec.Subseq`).
+  the reference optimal length `lcsLen` (textbook recursion, `Spec.Subseq`); for an `eq` that is
+  equality of a key (`LCSFunc` with a custom equality) the returned ELEMENTS are, in order, elements
+  of the shorter argument (the first if equally long) and their keys an optimal common subsequence
+  of the key sequences (`lcsFunc_values_from`).
 * LIS / LNDS: for every comparison `cmp` that is the three-way comparison of a total preorder
   (`CmpOK`: `cmp a b < 0 ↔ cmp b a > 0`, and `≤` transitive) the result is a subsequence of the
   input, strictly increasing (`cmp a b < 0` for every earlier `a`, later `b`) resp. non-decreasing
@@ -36,6 +40,48 @@ theorem lcs_optimal_common [DecidableEq α] {eq : α → α → Bool} (heq : ∀
 
 example : lcsFunc? (fun a b : Nat => decide (a = b)) [0, 1, 0, 2, 1] [1, 0, 1, 2] = some [1, 0, 1] := by
   decide
+
+/-- **lcsFunc_values_from**: `LCSFunc` with a custom equality that is equality of a key
+(`eq a b ↔ key a = key b`; the harness uses `a % k = b % k`) returns — never panicking — a list `r`
+of ELEMENTS such that
+* `r <+ lcsSource as bs`: element for element, as values and in order, `r` is taken from the shorter
+  argument (from the first one when both are equally long) — the rule `Spec.Subseq.lcsSource` states
+  and the driver checks on the implementation's values;
+* the keys of `r` are a common subsequence of the two key sequences;
+* its length is the reference optimum `lcsLen` of the two key sequences.
+With `key = id` this is `lcs_optimal_common`. -/
+theorem lcsFunc_values_from {κ : Type} [DecidableEq κ] (key : α → κ) {eq : α → α → Bool}
+    (heq : ∀ a b, eq a b = true ↔ key a = key b) (as bs : List α) :
+    ∃ r, lcsFunc? eq as bs = some r ∧ r <+ lcsSource as bs ∧
+      r.map key <+ as.map key ∧ r.map key <+ bs.map key ∧
+      r.length = lcsLen (as.map key) (bs.map key) := by
+  unfold lcsFunc? lcsSource
+  by_cases h0 : as.length = 0 ∨ bs.length = 0
+  · simp only [if_pos h0]
+    refine ⟨[], rfl, nil_sublist _, by simp, by simp, ?_⟩
+    rcases h0 with h | h
+    · rw [List.eq_nil_of_length_eq_zero h]; simp [lcsLen]
+    · rw [List.eq_nil_of_length_eq_zero h]; simp [lcsLen_nil_right]
+  · simp only [if_neg h0]
+    by_cases hsw : bs.length < as.length
+    · simp only [if_pos hsw]
+      obtain ⟨r, h1, h2, h3, h4⟩ := MdsVerif.Proofs.LcsKeyed.lcsCore_keyed key heq bs as
+      exact ⟨r, h1, h2, h3, h2.map key, by rw [h4, MdsVerif.Proofs.LcsKeyed.lcsLen_comm]⟩
+    · simp only [if_neg hsw]
+      obtain ⟨r, h1, h2, h3, h4⟩ := MdsVerif.Proofs.LcsKeyed.lcsCore_keyed key heq as bs
+      exact ⟨r, h1, h2, h2.map key, h3, h4⟩
+
+/-- non-vacuity: equality modulo 2 on `[10, 21, 30]` / `[41, 50, 61, 70]` (the first is shorter) and
+with the arguments exchanged: the same ELEMENTS, those of the three-element argument, both times —
+although the other argument has `eq`-equal elements; with equally long arguments the elements of
+the first one -/
+example :
+    lcsFunc? (fun a b : Nat => decide (a % 2 = b % 2)) [10, 21, 30] [41, 50, 61, 70] = some [10, 21, 30] ∧
+    lcsFunc? (fun a b : Nat => decide (a % 2 = b % 2)) [41, 50, 61, 70] [10, 21, 30] = some [10, 21, 30] ∧
+    lcsSource [41, 50, 61, 70] [10, 21, 30] = [10, 21, 30] ∧
+    lcsFunc? (fun a b : Nat => decide (a % 2 = b % 2)) [10, 21] [41, 50] = some [10] ∧
+    lcsFunc? (fun a b : Nat => decide (a % 2 = b % 2)) [41, 50] [10, 21] = some [41] ∧
+    lcsSource [10, 21] [41, 50] = [10, 21] := by decide
 
 /-! ## LIS / LNDS -/
 
